@@ -9,6 +9,7 @@ import Sonic.Model.StringDec
 import Sonic.Model.Ftoa
 import Sonic.Model.Number
 import Sonic.Model.OnDemand
+import Sonic.Model.Parse
 
 /-!
 # Line-protocol driver (`sonic_model`)
@@ -119,6 +120,7 @@ def step (st : DState) (line : String) : DState × String :=
       | _, _ => ""
     (st, o ++ extra)
   | "pod" :: _ => (st, Sonic.Model.OnDemand.runLine st.W toks)
+  | "parse" :: _ | "parse-seq" :: _ => (st, Sonic.Model.Parse.runLine st.W toks)
   | ["slice-spec", hx, a, b] =>
     match parseHex hx, a.toNat?, b.toNat? with
     | some data, some s, some e => (st, dropStr 5 (specParseStr ((data.drop s).take (e - s))))
